@@ -2,6 +2,7 @@ import Driver.J
 import Driver.C08
 import Driver.C01
 import Driver.C02
+import Driver.C03
 open Lean
 
 def dispatch (p op : String) (c i : Json) : Except String (Json × String) :=
@@ -9,6 +10,7 @@ def dispatch (p op : String) (c i : Json) : Except String (Json × String) :=
   | "C08" => D08.handle op c i
   | "C01" => D01.handle op c i
   | "C02" => D02.handle op c i
+  | "C03" => D03.handle op c i
   | _ => throw s!"unknown property {p}"
 
 def handleLine (line : String) : String :=
